@@ -109,7 +109,15 @@ func cmdCheck(args []string) int {
 			missing = append(missing, k)
 			continue
 		}
-		targets = append(targets, target{fn, c, k})
+		fns := []*ssa.Function{fn}
+		if c.Pkg != "" {
+			if all := e.lookupFuncs(c.Pkg, c.Key); len(all) > 1 {
+				fns = all
+			}
+		}
+		for _, f := range fns {
+			targets = append(targets, target{f, c, k})
+		}
 	}
 	var results []*FnResult
 	var allObls []*Obligation
